@@ -1,9 +1,67 @@
 import JominiModel.Driver.Util
+import JominiModel.Driver.C04
+import JominiModel.Spec.BinDocText
+/-
+ops of property C10: `pair <ty> <bdoc> <texthex> <binhex>`: the six values the real code is
+expected to produce = the text reference twice (`valueOfText`), then the three binary path
+models on `tapeOf` / `tokensOf` of the document.  `x-c10-real` is implementation-only.
+-/
 namespace Jomini.Driver.C10
-open Jomini Jomini.Driver
+open Jomini Jomini.Driver Jomini.BinDe
 
-/-- ops of property C10 (none yet). -/
+/-- every pool key known, strategy Error (harness `shared_cfg`). -/
+def keyPool : List String := ["a", "b", "name", "id", "core", "flags", "k17", "army", "unit", "x", "y", "type", "color", "date", "list", "zz_long_key_name"]
+
+def sharedCfg : Cfg :=
+  { strat := .error
+    entries := (List.range keyPool.length).map (fun i => (0x2000 + 7 * i, strBytes (keyPool.getD i ""))) }
+
+/-- key name of a field as the harness sees it (`key_field_name`). -/
+def keyName (c : Cfg) : BLeaf → Option Bytes
+  | .quoted b => some b | .unquoted b => some b
+  | .id n => resolve c n
+  | _ => none
+
+mutual
+/-- harness `touches_rgb`: does the request look into an rgb value? -/
+partial def touchesRgb (c : Cfg) (t : Ty) (n : BNode) : Bool :=
+  match t with
+  | .ign => false
+  | .opt i => touchesRgb c i n
+  | _ =>
+    match n with
+    | .rgb _ => true
+    | .leaf _ => false
+    | .arr vs => match t with | .seq e => anyNode c e vs | _ => false
+    | .obj fs => touchesFields c t fs
+partial def anyNode (c : Cfg) (e : Ty) : BNodes → Bool
+  | .nil => false
+  | .cons v r => touchesRgb c e v || anyNode c e r
+partial def touchesFields (c : Cfg) (t : Ty) : BFields → Bool
+  | .nil => false
+  | .cons _ k v r =>
+    (match t with
+     | .map vt => touchesRgb c vt v
+     | .struct decl =>
+       (match keyName c k with
+        | some nm => (match decl.posName nm 0 with
+          | some i => (match decl.get? i with | some (_, _, ft) => touchesRgb c ft v | none => false)
+          | none => false)
+        | none => false)
+     | _ => false) || touchesFields c t r
+end
+
 def handle : Handler
+  | ["pair", ty, bd, _, _] => do
+    let t ← C04.parseRoot ty
+    let d ← C04.parseBDoc bd
+    let c := sharedCfg
+    let txt := renderRes (valueOfText c t d)
+    let hdr := match t with | .plain pt => touchesFields c pt d | _ => false
+    let tape := match tapeOf d with | some tp => renderRes (deTape c t tp) | none => "err:parse"
+    let od := renderRes (deOndemand c t (tokensOf d))
+    let st := renderRes (deStream c t (tokensOf d))
+    pure (String.intercalate "|" [txt, if hdr then "text-reader-header" else txt, tape, od, st, st])
   | _ => none
 
 end Jomini.Driver.C10
